@@ -75,7 +75,7 @@ def default_scripts(rng, antiparallel=False):
 
 def gen_find_world(rng, max_atoms=48, max_copies=6, families=None, cell_families=None, allow_rotated=False,
                    hints_prob=0.4, decoys=True, min_copies=0, atols=None, noise=True, pattern=None, width_mult=1.0,
-                   no_tight=False, noise_div_K=False, round_cell=None):
+                   no_tight=False, noise_div_K=False, round_cell=None, force_axis_exact=False, poses=None):
     """A periodic structure with planted copies of a pattern (+ decoys).  Returns a JSON-able spec."""
     family = rng.choice(families or geom.PATTERN_FAMILIES)
     if pattern is None:
@@ -86,7 +86,7 @@ def gen_find_world(rng, max_atoms=48, max_copies=6, families=None, cell_families
         els, P = pattern
         P = np.asarray(P, float)
     n = len(P)
-    axis_exact = pattern is None and n >= 2 and rng.random() < 0.12
+    axis_exact = pattern is None and n >= 2 and (rng.random() < 0.12 or force_axis_exact)
     if axis_exact:
         # the pattern's alignment axis exactly along +-x/+-y/+-z with its first axis point at the origin, and (below) the
         # first copy exactly antiparallel to it: the only way into the implementation's antiparallel branch, probed along
@@ -227,7 +227,7 @@ def gen_find_world(rng, max_atoms=48, max_copies=6, families=None, cell_families
                     break
             continue
         for attempt in range(12):
-            pose = "antiparallel" if (want_antiparallel and c == 0) else rng.choice(["random", "random", "random", "aligned", "near_aligned"])
+            pose = "antiparallel" if (want_antiparallel and c == 0) else rng.choice(poses or ["random", "random", "random", "aligned", "near_aligned"])
             R = random_pose(pose)
             X = P @ R.T
             eps = 0.0
@@ -299,12 +299,17 @@ def gen_find_world(rng, max_atoms=48, max_copies=6, families=None, cell_families
     for p in planted:
         p["indices"] = [inv[i] for i in p["indices"]]
 
+    pat = {"elements": list(els), "positions": P.tolist()}
+    if rng.random() < 0.2:
+        # a pattern cut out of a larger molecule keeps that molecule's whole type table: entries no pattern atom uses
+        pat["table_extra"] = rng.sample(["Kr", "Xe", "Au", "Hg"], rng.randint(1, 2))
+        pat["table_extra_first"] = rng.random() < 0.5
     return {
         "seed": rng.getrandbits(31),
         "cell": cell.tolist(),
         "elements": elements,
         "positions": pos.tolist(),
-        "pattern": {"elements": list(els), "positions": P.tolist()},
+        "pattern": pat,
         "atol": atol,
         "hints": hints,
         "planted": planted,
@@ -324,6 +329,13 @@ def build_structure(spec, **extra):
 def build_pattern(pat, **extra):
     from mofun import Atoms
     kw = dict(elements=list(pat["elements"]), positions=np.array(pat["positions"], float).reshape(-1, 3))
+    if pat.get("table_extra") and not extra:
+        from mofun.atomic_masses import ATOMIC_MASSES
+        els = list(pat["elements"])
+        uniq = list(dict.fromkeys(els))
+        table = (list(pat["table_extra"]) + uniq) if pat.get("table_extra_first") else (uniq + list(pat["table_extra"]))
+        kw = dict(atom_types=[table.index(e) for e in els], atom_type_elements=list(table), atom_type_labels=list(table),
+                  atom_type_masses=[ATOMIC_MASSES[e] for e in table], positions=kw["positions"])
     kw.update(extra)
     return Atoms(**kw)
 
